@@ -316,4 +316,129 @@ theorem volByte_lt (v : Option String) : volByte v < 256 := by
       · omega
       · split <;> omega
 
+
+/-! ## index check -/
+
+theorem convertTrackChk_fits {nS nM : Nat} {es : List MEv} {bs : List Nat}
+    (h : convertTrackChk nS nM es = .ok bs) : es.all (idxFits nS nM) = true ∧ convertTrack nS nM es = .ok bs := by
+  unfold convertTrackChk at h
+  split at h
+  · rename_i hall
+    refine ⟨hall, ?_⟩
+    split at h
+    · simp at h
+    · rename_i b hb; simp at h; subst h; exact hb
+  · split at h <;> simp at h
+
+theorem encodeStreams_fits {nS nM : Nat} :
+    ∀ (es : List (List MEv)) (bs : List (List Nat)), encodeStreams (convertTrackChk nS nM) es = .ok bs →
+      ∀ l ∈ es, l.all (idxFits nS nM) = true
+  | [], _, _, l, hl => by simp at hl
+  | e :: es, bs, h, l, hl => by
+    simp only [encodeStreams] at h
+    split at h
+    · simp at h
+    · rename_i b hb
+      split at h
+      · simp at h
+      · rename_i bs' hbs
+        rcases List.mem_cons.mp hl with rfl | hl'
+        · exact (convertTrackChk_fits hb).1
+        · exact encodeStreams_fits es bs' hbs l hl'
+
+/-! ## the used-data map -/
+
+/-- `used_data_map` numbers its keys 0, 1, 2, … in insertion order -/
+def UsedOk (u : List (Nat × Nat)) : Prop := u.map (·.2) = List.range u.length
+
+theorem usedOk_nil : UsedOk [] := rfl
+
+/-- `get_envelope` keeps the numbering (the only place the map is written) -/
+theorem usedOk_getEnvelope (c : Conv) (m : Nat) (h : UsedOk c.usedData) : UsedOk (getEnvelope c m).1.usedData := by
+  unfold getEnvelope
+  split
+  · exact h
+  · unfold UsedOk at *
+    simp [h, List.range_succ]
+
+theorem usedOk_nodup {u : List (Nat × Nat)} (h : UsedOk u) : (u.map (·.2)).Nodup := by
+  rw [h]; exact List.nodup_range
+
+
+/-! ## `get_mds` is the serialisation of a chunk tree -/
+
+def entryTree (nS nM : Nat) (mapped envId : Nat) (dat : List Nat) : Riff.Tree :=
+  .chunk (if mapped < mdsFile_pcmTag then mdsFile_glob else mdsFile_pcmh) (le32 (entryId nS nM mapped envId) ++ toU8 dat)
+
+def entryTrees (nS nM : Nat) (bank : List (List Nat)) : List (Nat × Nat) → Option (List Riff.Tree)
+  | [] => some []
+  | (mapped, envId) :: rest =>
+    match bank[mapped % (mdsFile_bankMask + 1)]? with
+    | none => none
+    | some dat => (entryTrees nS nM bank rest).map (entryTree nS nM mapped envId dat :: ·)
+
+def mdsTree (seq group pcm : Bytes) (entries : List Riff.Tree) : Riff.Tree :=
+  .list Riff.TYPE_RIFF mdsFile_MDS0
+    [.chunk mdsFile_ver (toU8 [MDSDRV_SEQ_VERSION_MAJOR, MDSDRV_SEQ_VERSION_MINOR]), .chunk mdsFile_grp group,
+     .chunk mdsFile_seq seq, .list Riff.TYPE_LIST mdsFile_dblk entries, .chunk mdsFile_pcmd pcm]
+
+theorem addEntries_buildL (nS nM : Nat) (bank : List (List Nat)) :
+    ∀ (l : List (Nat × Nat)) (r r' : Riff.Riff), addEntries nS nM bank r l = .ok r' →
+      ∃ ts, entryTrees nS nM bank l = some ts ∧ Riff.buildL r ts = .ok r' ∧ ts.length = l.length ∧
+        ∀ t ∈ ts, ∃ p, t = .chunk mdsFile_glob p ∨ t = .chunk mdsFile_pcmh p
+  | [], r, r', h => by
+    simp [addEntries] at h; subst h
+    exact ⟨[], rfl, rfl, rfl, by simp⟩
+  | (mapped, envId) :: rest, r, r', h => by
+    simp only [addEntries] at h
+    split at h
+    · simp at h
+    · rename_i dat hdat
+      split at h
+      · simp at h
+      · rename_i r1 hr1
+        obtain ⟨ts, hts, hb, hl, hk⟩ := addEntries_buildL nS nM bank rest r1 r' h
+        refine ⟨entryTree nS nM mapped envId dat :: ts, ?_, ?_, by simp [hl], ?_⟩
+        · simp [entryTrees, hdat, hts]
+        · simp only [Riff.buildL, entryTree, Riff.build]
+          rw [hr1]; exact hb
+        · intro t ht
+          rcases List.mem_cons.mp ht with rfl | ht'
+          · unfold entryTree; split
+            · exact ⟨_, Or.inl rfl⟩
+            · exact ⟨_, Or.inr rfl⟩
+          · exact hk t ht'
+
+theorem getMds_serialize {b : Built} {bank : List (List Nat)} {group pcm f : Bytes}
+    (h : getMds b bank group pcm = .ok f) :
+    ∃ ts, entryTrees b.conv.subList.length b.conv.macroList.length bank (usedSorted b.conv) = some ts ∧
+      ts.length = b.conv.usedData.length ∧
+      (∀ t ∈ ts, ∃ p, t = .chunk mdsFile_glob p ∨ t = .chunk mdsFile_pcmh p) ∧
+      Riff.serialize (mdsTree (toU8 b.seq) group pcm ts) = .ok f := by
+  unfold getMds at h
+  simp only [bind, Except.bind, pure, Except.pure] at h
+  have hl : ∀ (r : Riff.Riff) (c : Riff.Riff), Riff.isList r.type = true →
+      liftRiff (Riff.addChunk r c) = .ok { r with data := Riff.pad r.data ++ be32 c.type ++ le32 c.data.length ++ c.data } := by
+    intro r c hr; simp [Riff.addChunk, hr, liftRiff]
+  have hR : Riff.isList Riff.TYPE_RIFF = true := by decide
+  rw [hl _ _ (by simpa [Riff.mk3] using hR)] at h
+  simp only at h
+  rw [hl _ _ (by simpa [Riff.mk3] using hR)] at h
+  simp only at h
+  rw [hl _ _ (by simpa [Riff.mk3] using hR)] at h
+  simp only at h
+  split at h
+  · simp at h
+  · rename_i dblk hd
+    obtain ⟨ts, hts, hb, hlen, hk⟩ := addEntries_buildL _ _ _ _ _ _ hd
+    rw [hl _ _ (by simpa [Riff.mk3] using hR)] at h
+    simp only at h
+    rw [hl _ _ (by simpa [Riff.mk3] using hR)] at h
+    simp only [Except.ok.injEq] at h
+    refine ⟨ts, hts, ?_, hk, ?_⟩
+    · rw [hlen]; unfold usedSorted; exact List.length_mergeSort _
+    · subst h
+      simp only [Riff.serialize, mdsTree, Riff.build, Riff.buildL, hb, Except.map]
+      simp [Riff.addChunk, Riff.mk3, Riff.mk2, Riff.rewindPos, hR, Riff.isList]
+
 end Ctrmml.MdsFile
